@@ -127,6 +127,63 @@ def run (s : Replay) : List Op → Replay × List String
     let rr := run r.1 rest
     (rr.1, r.2 :: rr.2)
 
+
+/-! ### loop models fed the same entries as the real functions (differential probes of harness/c14_probe_test.go)
+
+The theorems of `Proofs/C14.lean` are about the list models above. These probe functions tie the models to the
+code: the harness feeds the REAL function (bsc `CheckHeaderAndUpdateState` over a crafted client state, the relayer
+registry through the gov handler, adapter `NewHookAdapter`, genesis `Validate`, `types.EmitTypedEvent`, the eth
+future-block check) the same entries in several insertion orders and many repetitions, and the driver prints what
+these functions say. A loop that stops sorting / starts iterating a map diverges here even when two replays agree. -/
+
+/-- adjacent duplicates removed (the input is sorted): together with `sortAddrs` this is "keys of the map, sorted" -/
+def dedupSorted : List Nat → List Nat
+  | [] => []
+  | [a] => [a]
+  | a :: b :: rest => if a = b then dedupSorted (b :: rest) else a :: dedupSorted (b :: rest)
+
+/-- `snapshot()` + `validators()`: the slice `ClientState.Validators` (any order, duplicates possible) is put into a
+    map and the keys are sorted -/
+def validatorSet (vals : List Addr) : List Addr := dedupSorted (sortAddrs vals)
+
+inductive BscVerdict where
+  | unauthorized | recent | wrongDifficulty | ok
+  deriving DecidableEq, Repr
+
+/-- bsc `verifySeal` for header `number` sealed by `signer` claiming in-turn (`claim = true`, difficulty 2) or not:
+    membership in the snapshot, recents window (`number < limit ∨ seen > number - limit`, limit = |set|/2+1),
+    turn = sorted[(snap.Number + 1) % |set|] with snap.Number = number - 1 -/
+def bscVerdict (vals : List Addr) (recents : List (Nat × Addr)) (number : Nat) (signer : Addr) (claim : Bool) : BscVerdict :=
+  let set := validatorSet vals
+  if !set.contains signer then .unauthorized
+  else
+    let limit := set.length / 2 + 1
+    if recents.any (fun e => e.2 == signer && (decide (number < limit) || decide (e.1 > number - limit))) then .recent
+    else if (set.getD (number % set.length) 0 == signer) == claim then .ok else .wrongDifficulty
+
+/-- bsc `update`: the validator slice stored after header `number` is accepted: the pending list AS IT WAS PARSED
+    (order and duplicates preserved) when `number % epoch = len(Validators)/2`, else unchanged -/
+def bscStoredVals {α : Type} (vals pending : List α) (epoch number : Nat) : List α :=
+  if number % epoch = vals.length / 2 then pending else vals
+
+/-- relayer registry: `RegisterRelayers` stores the two slices as given; `AuthRelayer` = membership of the chain;
+    `GetRelayerAddressOnOtherChain` = address at the FIRST index whose chain matches -/
+def relayerAuth (chains : List String) (c : String) : Bool := chains.contains c
+
+def relayerAddr : List String → List String → String → Option String
+  | ch :: cs, a :: as, c => if ch = c then some a else relayerAddr cs as c
+  | _, _, _ => none
+
+/-- eth `verifyHeader` time checks, in code order: future block against the BLOCK time (+15 s), then not after parent -/
+def ethTimeVerdict (blockTime parentTime headerTime : Nat) : String :=
+  if headerTime > blockTime + 15 then "future" else if headerTime ≤ parentTime then "old" else "ok"
+
+/-- aggregate genesis `Validate` over valid pairs: duplicate contract or duplicate first denomination -/
+def aggGenesisDup (erc20s denoms : List Nat) : Bool := hasDup erc20s || hasDup denoms
+
+/-- rvesting `validatePerBlockReward` over well-formed coins: empty list or duplicate denomination is rejected -/
+def rewardInvalid (denoms : List Nat) : Bool := denoms.isEmpty || hasDup denoms
+
 /-- discharge classes accepted for an inventoried site (reasons are in props/sites-C14.json) -/
 def classes : List String :=
   ["telemetry-only", "cli-or-query-only", "simulation-only", "test-support-only", "startup-configuration",
@@ -138,7 +195,8 @@ def classes : List String :=
 def theoremNames : List String :=
   ["TM.Determinism.bsc_validators_perm", "TM.Determinism.bsc_inturn_perm", "TM.Determinism.bsc_recents_perm",
    "TM.Determinism.handler_table_perm", "TM.Determinism.table_build_perm", "TM.Determinism.membership_perm",
-   "TM.Determinism.genesis_dup_perm", "TM.Determinism.adapter_manager_order", "TM.Determinism.typed_event_sorted_perm", "TM.Determinism.sum_perm"]
+   "TM.Determinism.genesis_dup_perm", "TM.Determinism.adapter_manager_order", "TM.Determinism.typed_event_sorted_perm", "TM.Determinism.sum_perm",
+   "TM.Determinism.bsc_verdict_perm", "TM.Determinism.validatorSet_perm"]
 
 def dischargeOk (d : String) : Bool :=
   if d.startsWith "auto:" then true
